@@ -97,11 +97,12 @@ def detectors(draw):
 
 
 @st.composite
-def particle_specs(draw, k):
-    neutrino = (k == 0 and draw(st.integers(0, 4)) > 0) or (k > 0 and draw(st.booleans()))
+def particle_specs(draw, k, plain=False):
+    """`plain`: neutrinos with the default interaction model only."""
+    neutrino = plain or (k == 0 and draw(st.integers(0, 4)) > 0) or (k > 0 and draw(st.booleans()))
     if neutrino:
         pid = draw(st.sampled_from(NEUTRINO_IDS))
-        model = draw(st.sampled_from(["default", "default", "base"]))
+        model = "default" if plain else draw(st.sampled_from(["default", "default", "base"]))
     else:
         pid = draw(st.sampled_from(OTHER_IDS))
         model = "base"
@@ -143,7 +144,7 @@ def trigger_specs(draw, silent, dict_bias=False):
 
 
 @st.composite
-def add_ops(draw, ndet, fault=None, dict_bias=False, nowave=None):
+def add_ops(draw, ndet, fault=None, dict_bias=False, nowave=None, plain=False):
     npart = draw(st.sampled_from([1, 1, 1, 2, 2, 3, 4]))
     shape = draw(st.sampled_from(["varied", "varied", "varied", "none", "one"]))
     if nowave is True:
@@ -161,7 +162,7 @@ def add_ops(draw, ndet, fault=None, dict_bias=False, nowave=None):
     if draw(st.integers(0, 3)) == 0:
         nray = [draw(st.integers(0, MAX_WAVES)) for _ in range(ndet)]
     return dict(op="add",
-                particles=[draw(particle_specs(k)) for k in range(npart)],
+                particles=[draw(particle_specs(k, plain)) for k in range(npart)],
                 nsig=nsig, nray=nray, amp=draw(st.sampled_from([0.25, 0.5, 1.0, 2.0])),
                 rv=draw(floats(-1e3, 1e3)),
                 trig=draw(trigger_specs(max(nsig) == 0, dict_bias)),
@@ -187,8 +188,10 @@ def effective_faults(cfg):
 
 @st.composite
 def history_cases(draw, focus=None, faults=False, min_ops=1, max_ops=6,
-                  slice_ranges=(None, None, None, 1, 2, 3), nowave_probe=False):
-    cfg = draw(configs(focus="triggers" if nowave_probe else focus))
+                  slice_ranges=(None, None, None, 1, 2, 3), nowave_probe=False, config=None,
+                  plain_particles=False):
+    cfg = dict(config) if config is not None else draw(
+        configs(focus="triggers" if nowave_probe else focus))
     det = draw(detectors())
     n = draw(st.integers(min_ops, max_ops))
     flags = [None] * n
@@ -227,7 +230,7 @@ def history_cases(draw, focus=None, faults=False, min_ops=1, max_ops=6,
         if k in forced:
             nowave = False
         op = draw(add_ops(len(det), fault=f, dict_bias=focus == "triggers" or nowave_probe,
-                          nowave=nowave))
+                          nowave=nowave, plain=plain_particles))
         if k in forced:
             op["trig"]["global"] = True     # so that trigger-only kinds are recorded
         ops.append(op)
